@@ -366,18 +366,14 @@ unsigned int SQuIDS::Get_i(double xi) const{
   if(xi>xr || xi<xl)
     throw std::runtime_error(" Error SQUIDS::Get_i :  value  out of bounds");
 
+  //bisect on the node values themselves, so that the result brackets xi for
+  //any sorted grid (not only uniformly spaced ones with 2^k intervals)
   while((nr-nl)>1){
-    if(((nr-nl)%2)!=0){
-      if(nr<nx-1)nr++;
-      else if(nl>0)nl--;
-    }
-    if(xi<(xl+(xr-xl)/2)){
-      nr=nl+(nr-nl)/2;
-      xr=x[nr];
-    }else{
-      nl=nl+(nr-nl)/2;
-      xl=x[nl];
-    }
+    unsigned int nm=nl+(nr-nl)/2;
+    if(xi<x[nm])
+      nr=nm;
+    else
+      nl=nm;
   }
   return nl;
 }
